@@ -74,8 +74,8 @@ def aux_configs(tier, seed=0):
 
 
 def subtree_configs(tier, seed=0):
-    cfgs = [(2, 0.0, "semi-adapted", "run", 0.5, 1.3, 1, True, seed), (3, 0.0, "semi-adapted", "run", 0.5, 1.3, 1, True, seed),
-            (2, 0.2, "semi-adapted", "run", 0.5, 1.3, 1, True, seed)]
+    cfgs = [(2, 0.0, "semi-adapted", "run", 0.5, 1.3, 1, True, 0), (3, 0.0, "semi-adapted", "run", 0.5, 1.3, 1, True, 0),
+            (2, 0.2, "semi-adapted", "run", 0.5, 1.3, 1, True, 0)]
     if tier == "thorough":
-        cfgs += [(3, 0.0, "bootstrap", "run", 0.5, 1.3, 1, True, seed), (3, 0.0, "fully-adapted", "library", 0.5, 1.3, 1, True, seed)]
+        cfgs += [(3, 0.0, "bootstrap", "run", 0.5, 1.3, 1, True, 0), (3, 0.0, "fully-adapted", "library", 0.5, 1.3, 1, True, 0)]
     return cfgs
